@@ -2,6 +2,7 @@
    Only statements closed by `exact`, with Print Assumptions, and non-vacuity examples. *)
 From Coq Require Import List ZArith Bool.
 From PV Require Import lib.Sx lib.Str lib.Result model.Langs spec.SpecLangs proofs.LangsFacts proofs.SamiSyncFacts.
+From PV Require Import spec.SpecFindLang model.LangsMerge proofs.FindLangFacts proofs.LangsMergeFacts.
 Import ListNotations.
 Open Scope Z_scope.
 
@@ -150,6 +151,116 @@ Theorem C14_vtt_select_meets_oracle : forall lang cs obs, NoDup (languages cs) -
 Proof. exact vtt_select_meets_oracle. Qed.
 Print Assumptions C14_vtt_select_meets_oracle.
 
+(* ---- wave 7: how a <P> gets its language (SAMIParser._find_lang, handle_starttag) -------------------------------- *)
+(* EVERY attribute list and stylesheet: the model finds what the specification says - the FIRST attribute that names
+   a language decides (a `lang` attribute: the two-letter cut of its value; a `class`: the language its class
+   declares), attributes before it name none - and nothing else satisfies the specification *)
+Theorem C14_find_lang_first_decider : forall attrs styles, spec_find_lang styles attrs (find_lang attrs styles).
+Proof. exact find_lang_first_decider. Qed.
+Print Assumptions C14_find_lang_first_decider.
+Theorem C14_find_lang_unique : forall attrs styles r, spec_find_lang styles attrs r -> r = find_lang attrs styles.
+Proof. exact find_lang_unique. Qed.
+Print Assumptions C14_find_lang_unique.
+(* the decidable oracle the harness evaluates on the real _find_lang says exactly the relational specification, and the
+   model meets it *)
+Theorem C14_ok_find_lang_iff_spec : forall attrs styles r,
+  ok_find_lang styles attrs r = true <-> spec_find_lang styles attrs r.
+Proof. exact ok_find_lang_iff_spec. Qed.
+Print Assumptions C14_ok_find_lang_iff_spec.
+Theorem C14_find_lang_meets_oracle : forall attrs styles, ok_find_lang styles attrs (find_lang attrs styles) = true.
+Proof. exact find_lang_meets_oracle. Qed.
+Print Assumptions C14_find_lang_meets_oracle.
+(* attributes that name no language (id=, style=, a class without a language, an unknown class) do not matter,
+   wherever they stand *)
+Theorem C14_find_lang_ignores_silent : forall attrs styles,
+  find_lang (filter (fun a => match attr_names styles a with Some _ => true | None => false end) attrs) styles
+  = find_lang attrs styles.
+Proof. exact find_lang_ignores_silent. Qed.
+Print Assumptions C14_find_lang_ignores_silent.
+(* nor does the case of attribute names and of class values *)
+Theorem C14_find_lang_case_insensitive : forall attrs styles,
+  find_lang (map (fun a => (lower (fst a), if str_eqb (lower (fst a)) (lit "class") then lower (snd a) else snd a)) attrs) styles
+  = find_lang attrs styles.
+Proof. exact find_lang_case_insensitive. Qed.
+Print Assumptions C14_find_lang_case_insensitive.
+(* the SAMI reader model is the grouping of the paragraphs by the language the SPECIFICATION assigns from their
+   attributes and the stylesheet (no longer tags computed by the model), and meets the oracle with those tags *)
+Theorem C14_sami_read_groups_by_spec_lang : forall default styles ps,
+  sami_read default styles ps
+  = spec_group (map (fun t : str * scue * bool => (fst (fst t), if snd t then @nil scue else [snd (fst t)]))
+                    (spec_tagged default styles ps))
+  /\ ok_sami_read (spec_tagged default styles ps) (sami_read default styles ps) = true.
+Proof. exact sami_read_groups_by_spec_lang. Qed.
+Print Assumptions C14_sami_read_groups_by_spec_lang.
+(* handle_starttag over a run of <P> tags: the tags and self.langs (order of first appearance) meet the oracle *)
+Theorem C14_p_langs_meets_oracle : forall default styles ps,
+  ok_p_langs default styles ps (fst (p_langs default styles ps)) (snd (p_langs default styles ps)) = true.
+Proof. exact p_langs_meets_oracle. Qed.
+Print Assumptions C14_p_langs_meets_oracle.
+(* the dict the parser rebuilds from a written stylesheet: a later block of a class replaces an earlier one *)
+Theorem C14_read_styles_last_block_wins : forall (sheet : list (str * str)) c,
+  (forall b, In b sheet -> lower (fst b) = lower c -> fst b = c) ->
+  dict_get (lower c) (read_styles sheet) = option_map Some (resolve_class c sheet).
+Proof. exact read_styles_last_block_wins. Qed.
+Print Assumptions C14_read_styles_last_block_wins.
+(* write-then-read at the class layer (composes C14_class_resolves with the reader's lookup): whatever class a caption
+   carries, the paragraph written for it under language l is read back under l *)
+Theorem C14_written_class_read_back : forall default styles langs l cap_class,
+  NoDup (map fst styles) -> NoDup langs -> In l langs -> l <> [] ->
+  (forall l0 l', In l0 langs -> dict_get l0 styles = Some (Some l') -> l' = l0) ->
+  (forall a b, In a (map fst styles ++ langs) -> In b (map fst styles ++ langs) -> lower a = lower b -> a = b) ->
+  reread_lang default (p_class l cap_class styles) (sheet_langs styles langs) = l.
+Proof. exact written_class_read_back. Qed.
+Print Assumptions C14_written_class_read_back.
+
+(* ---- wave 7: merge_concurrent_captions (single-positioning and legacy DFXP writers) ---------------------------- *)
+(* the loop with last_caption / concurrent_captions / merged_captions and merge() compute the specification's
+   grouping of equal-(start, end) runs; hypothesis: every caption has a node (the Caption constructor's rule) *)
+Theorem C14_merge_loop_is_grouping : forall cs, nodes_nonempty cs -> merge_concurrent cs = spec_merge_set cs.
+Proof. exact merge_concurrent_is_spec. Qed.
+Print Assumptions C14_merge_loop_is_grouping.
+Theorem C14_merge_meets_oracle : forall cs, nodes_nonempty cs -> ok_merge cs (merge_concurrent cs) = true.
+Proof. exact merge_concurrent_meets_oracle. Qed.
+Print Assumptions C14_merge_meets_oracle.
+(* merging never moves a cue to another language: same languages in the same order, each with exactly its texts in order *)
+Theorem C14_merge_keeps_languages : forall cs, nodes_nonempty cs ->
+  map (fun lc => (fst lc, texts_of (snd lc))) (merge_concurrent cs) = map (fun lc => (fst lc, texts_of (snd lc))) cs.
+Proof. exact merge_concurrent_keeps_languages. Qed.
+Print Assumptions C14_merge_keeps_languages.
+Theorem C14_merge_idempotent : forall cs, nodes_nonempty cs -> merge_concurrent (merge_concurrent cs) = merge_concurrent cs.
+Proof. exact merge_concurrent_idempotent. Qed.
+Print Assumptions C14_merge_idempotent.
+(* the writers that merge first (SinglePositioningDFXPWriter, LegacyDFXPWriter = merge_concurrent_captions, then the
+   writer above): what they write is judged against the GROUPED set, and reading it back returns the grouped set *)
+Theorem C14_single_write_meets_oracle : forall force cs, nodes_nonempty cs -> NoDup (map fst cs) ->
+  ok_dfxp_write force (flat_set (spec_merge_set cs)) (doc_sset (single_write force cs)) = true.
+Proof. exact single_write_meets_oracle. Qed.
+Print Assumptions C14_single_write_meets_oracle.
+Theorem C14_legacy_merge_write_meets_oracle : forall force cs d, nodes_nonempty cs -> NoDup (map fst cs) ->
+  mem [] (map fst cs) = false -> legacy_merge_write force cs = Ok d ->
+  ok_dfxp_write force (flat_set (spec_merge_set cs)) (doc_sset d) = true.
+Proof. exact legacy_merge_write_meets_oracle. Qed.
+Print Assumptions C14_legacy_merge_write_meets_oracle.
+Theorem C14_single_write_roundtrip : forall default cs, nodes_nonempty cs -> NoDup (map fst cs) -> mem [] (map fst cs) = false ->
+  dfxp_read default (single_write [] cs) = flat_set (spec_merge_set cs).
+Proof. exact single_write_roundtrip. Qed.
+Print Assumptions C14_single_write_roundtrip.
+(* about the grouping itself, ALL cue lists: neighbours in the output have different spans; the spans are those of
+   the input with neighbouring repetitions dropped; the texts are conserved in order; a list without equal
+   neighbours is left alone *)
+Theorem C14_grouping_spans_differ : forall caps, spans_differ (spec_merge caps) = true.
+Proof. exact spec_merge_spans_differ. Qed.
+Print Assumptions C14_grouping_spans_differ.
+Theorem C14_grouping_spans : forall caps : list (Z * Z * list (option str)), map fst (spec_merge caps) = squeeze (map fst caps).
+Proof. exact spec_merge_spans. Qed.
+Print Assumptions C14_grouping_spans.
+Theorem C14_grouping_texts : forall caps, texts_of (spec_merge caps) = texts_of caps.
+Proof. exact spec_merge_texts. Qed.
+Print Assumptions C14_grouping_texts.
+Theorem C14_grouping_no_runs_id : forall caps, spans_differ caps = true -> spec_merge caps = caps.
+Proof. exact spec_merge_no_runs_id. Qed.
+Print Assumptions C14_grouping_no_runs_id.
+
 (* ---- non-vacuity ------------------------------------------------------------------------------------------------ *)
 Example C14_example_dfxp :
   dfxp_read (lit "und") (mkDfxp (Some (lit "es"))
@@ -220,3 +331,65 @@ Example C14_example_tree :
      DDiv None [DP (4, lit "d")]; DDiv (Some (lit "fr")) [DP (5, lit "e")]; DP (6, lit "outside")]
   = [(lit "fr", [(1, lit "a"); (2, lit "b"); (3, lit "c"); (5, lit "e")]); (lit "es", [(4, lit "d")])].
 Proof. vm_compute. reflexivity. Qed.
+
+(* wave 7 *)
+Definition ex_fl_styles : sami_styles := [(lit "encc", Some (lit "en")); (lit "narrow", None)].
+Example C14_example_find_lang :
+  find_lang [(lit "id", lit "x"); (lit "Class", lit "NARROW"); (lit "class", lit "Unknown"); (lit "CLASS", lit "EnCC");
+             (lit "lang", lit "fr")] ex_fl_styles = Some (lit "en")
+  /\ find_lang [(lit "class", lit "narrow"); (lit "LANG", lit "en-US"); (lit "class", lit "encc")] ex_fl_styles = Some (lit "en")
+  /\ find_lang [(lit "class", lit "narrow"); (lit "id", lit "encc")] ex_fl_styles = None
+  /\ p_lang (lit "und") [(lit "lang", [])] ex_fl_styles = lit "und".
+Proof. vm_compute. repeat split. Qed.
+(* the hypotheses of C14_written_class_read_back are met by an ordinary set (en-US next to the class encc / ENCC clash
+   is what the lower-case hypothesis excludes) *)
+Example C14_example_read_back_hyps :
+  let styles := ex_styles in let langs := [lit "en-US"; lit "fr"] in
+  NoDup (map fst styles) /\ NoDup langs
+  /\ (forall l0 l', In l0 langs -> dict_get l0 styles = Some (Some l') -> l' = l0)
+  /\ (forall a b, In a (map fst styles ++ langs) -> In b (map fst styles ++ langs) -> lower a = lower b -> a = b)
+  /\ reread_lang (lit "und") (p_class (lit "fr") (Some (lit "encc")) styles) (sheet_langs styles langs) = lit "fr"
+  /\ reread_lang (lit "und") (p_class (lit "en-US") None styles) (sheet_langs styles langs) = lit "en-US".
+Proof.
+  cbv zeta. split; [|split; [|split; [|split; [|split; vm_compute; reflexivity]]]].
+  - repeat constructor; cbn; intros H; repeat (destruct H as [H|H]; [discriminate|]); exact H.
+  - repeat constructor; cbn; intros H; repeat (destruct H as [H|H]; [discriminate|]); exact H.
+  - intros l0 l' [<-|[<-|[]]] H; vm_compute in H; discriminate.
+  - intros a b Ha Hb. cbn in Ha, Hb.
+    repeat (destruct Ha as [<-|Ha]); try destruct Ha; repeat (destruct Hb as [<-|Hb]); try destruct Hb;
+      vm_compute; intros E; try reflexivity; discriminate.
+Qed.
+Definition ex_mset : list (str * list (Z * Z * list (option str))) :=
+  [(lit "en", [(1, 2, [Some (lit "a")]); (1, 2, [Some (lit "b"); None; Some (lit "c")]); (1, 3, [Some (lit "d")]);
+               (1, 2, [Some (lit "e")])]); (lit "fr", [])].
+Example C14_example_merge :
+  nodes_nonempty ex_mset
+  /\ merge_concurrent ex_mset
+     = [(lit "en", [(1, 2, [Some (lit "a"); None; Some (lit "b"); None; Some (lit "c")]); (1, 3, [Some (lit "d")]);
+                    (1, 2, [Some (lit "e")])]); (lit "fr", [])].
+Proof.
+  split; [|vm_compute; reflexivity].
+  intros l caps x [H|[H|[]]]; inversion H; subst; [|intros []].
+  intros Hx. repeat (destruct Hx as [<-|Hx]; [discriminate|]). destruct Hx.
+Qed.
+Example C14_example_single_write :
+  NoDup (map fst ex_mset) /\ mem [] (map fst ex_mset) = false
+  /\ dfxp_read (lit "und") (single_write [] ex_mset)
+     = [(lit "en", [(1, lit "a b c"); (1, lit "d"); (1, lit "e")]); (lit "fr", [])]
+  /\ (exists d, legacy_merge_write (lit "xx") ex_mset = Ok d /\ doc_sset d = [(lit "fr", [])]).
+Proof.
+  split; [|split; [reflexivity|split; [vm_compute; reflexivity|eexists; split; vm_compute; reflexivity]]].
+  repeat constructor; cbn; intros H; repeat (destruct H as [H|H]; [discriminate|]); exact H.
+Qed.
+(* the hypothesis of C14_read_styles_last_block_wins (no OTHER block name coincides with c in lower case) and a repeated
+   class: the later block wins, the key keeps its first position; a list without equal neighbours (C14_grouping_no_runs_id) *)
+Example C14_example_read_styles :
+  let sheet := [(lit "ENCC", lit "en"); (lit "fr", lit "fr"); (lit "ENCC", lit "en-US")] in
+  (forall b, In b sheet -> lower (fst b) = lower (lit "ENCC") -> fst b = lit "ENCC")
+  /\ read_styles sheet = [(lit "encc", Some (lit "en-US")); (lit "fr", Some (lit "fr"))]
+  /\ resolve_class (lit "ENCC") sheet = Some (lit "en-US")
+  /\ spans_differ [(1, 2, [Some (lit "a")]); (1, 3, [Some (lit "b")]); (1, 2, [Some (lit "c")])] = true.
+Proof.
+  cbv zeta. split; [|vm_compute; repeat split].
+  intros b [<-|[<-|[<-|[]]]]; vm_compute; intros E; try reflexivity; discriminate.
+Qed.
